@@ -52,15 +52,39 @@ Theorem gen_keys_distinct : NoDup (map fst (t_e2c gen_tables)).
 Proof. apply keys_distinct_of_b. vm_compute. reflexivity. Qed.
 
 (** the headline theorems, over the generated tables *)
+
+(* every wrapping tree without a status error in which errors.Is finds the class c and no other class *)
+Theorem gen_class_survives_tree :
+  forall (e : err) (c : class) (k : code) (c' : class),
+    inner_status e = None -> uniform e = true -> the_class e = Some c ->
+    to_code gen_tables c = Some k ->
+    Is_o gen_tables (grpc_wrap gen_tables e) c' = class_eqb c' c /\
+    Is_o gen_tables (transport_o (grpc_wrap gen_tables e)) c' = class_eqb c' c.
+Proof.
+  intros e c k c' Hs Hu Hc Hk. rewrite (transport_wrapped_tree gen_tables gen_tables_ok e c Hs Hu Hc).
+  split; exact (class_survives_tree gen_tables gen_tables_ok e c k c' Hs Hu Hc Hk).
+Qed.
+
+(* a wrapping context (a path through the tree whose side operands bring neither a class nor a status error) *)
 Theorem gen_class_survives :
   forall (c : class) (k : code) (x : ctx) (c' : class),
+    ctx_sides_ok x = true ->
     to_code gen_tables c = Some k ->
     Is_o gen_tables (grpc_wrap gen_tables (plug x (Sentinel c))) c' = class_eqb c' c /\
     Is_o gen_tables (transport_o (grpc_wrap gen_tables (plug x (Sentinel c)))) c' = class_eqb c' c.
 Proof.
-  intros c k x c' Hk. rewrite (transport_wrapped gen_tables gen_tables_ok).
-  split; exact (class_survives gen_tables gen_tables_ok c k x c' Hk).
+  intros c k x c' Hx Hk. rewrite (transport_wrapped gen_tables gen_tables_ok x c Hx).
+  split; exact (class_survives gen_tables gen_tables_ok c k x c' Hx Hk).
 Qed.
+
+(* chains: no side condition *)
+Theorem gen_class_survives_linear :
+  forall (c : class) (k : code) (x : ctx) (c' : class),
+    ctx_linear x = true ->
+    to_code gen_tables c = Some k ->
+    Is_o gen_tables (grpc_wrap gen_tables (plug x (Sentinel c))) c' = class_eqb c' c /\
+    Is_o gen_tables (transport_o (grpc_wrap gen_tables (plug x (Sentinel c)))) c' = class_eqb c' c.
+Proof. intros c k x c' Hl. apply gen_class_survives, linear_sides_ok, Hl. Qed.
 
 Theorem gen_grpc_wrap_idem :
   forall e : option err,
@@ -69,7 +93,7 @@ Proof. exact (grpc_wrap_idem gen_tables gen_tables_ok). Qed.
 
 Theorem gen_embed_survives :
   forall (x : ctx) (c : class) (o : obj),
-    ctx_marker_free x = true -> ctx_embeds x = [o] ->
+    ctx_sides_ok x = true -> ctx_marker_free x = true -> ctx_embeds x = [o] ->
     extract_o (grpc_wrap gen_tables (plug x (Sentinel c))) = Some o /\
     extract_o (transport_o (grpc_wrap gen_tables (plug x (Sentinel c)))) = Some o.
 Proof. exact (embed_survives gen_tables gen_tables_ok). Qed.
@@ -81,6 +105,8 @@ Print Assumptions gen_codes_exactly_one_class.
 Print Assumptions gen_class_code_roundtrip.
 Print Assumptions gen_to_code_injective.
 Print Assumptions gen_keys_distinct.
+Print Assumptions gen_class_survives_tree.
 Print Assumptions gen_class_survives.
+Print Assumptions gen_class_survives_linear.
 Print Assumptions gen_grpc_wrap_idem.
 Print Assumptions gen_embed_survives.
